@@ -119,7 +119,7 @@ theorem erase_mid (l1 l2 : List Id) (c : Id) (h : c ∉ l1) : (l1 ++ c :: l2).er
   | cons a r ih =>
     have hne : a ≠ c := fun e => h (by simp [e])
     have hr : c ∉ r := fun e => h (by simp [e])
-    simp [List.erase_cons, hne, ih hr]
+    simp [hne, ih hr]
 
 /-- the parent of a node is an element -/
 theorem Inv.parent_elem {h : Heap} (hI : Inv h) {c p : Id} (hp : (h c).parent = some p) :
@@ -157,7 +157,7 @@ theorem rm_inv {h : Heap} {p c : Id} (hI : Inv h) (hc : c ∈ (h p).kids) : Inv 
   have hlk := hI.linked p
   rw [hsplit] at hlk
   obtain ⟨hA, hB⟩ := Linked.append.mp hlk
-  simp only [List.head?_cons, Option.or_some] at hA
+  simp only [List.head?_cons] at hA
   obtain ⟨hpc, hnc, hC⟩ := hB
   simp only [Option.or_none] at hpc hnc
   have hparent_c : (h c).parent = some p := (hI.parent_iff p c).mp hc
@@ -339,7 +339,7 @@ theorem attach_inv {h h' : Heap} {p n : Id} {l1 l2 : List Id} (hI : Inv h)
       simp only [if_true]
       apply Linked.append.mpr
       constructor
-      · simp only [List.head?_cons, Option.or_some]
+      · simp only [List.head?_cons]
         apply Linked.replace_last hA hnd1
         · intro x hx
           have hxl1 : x ∈ l1 := List.mem_of_getLast? hx
@@ -632,7 +632,7 @@ theorem addText_inv {h : Heap} (hI : Inv h) (p t : Id) (a ne : Bool) (hb : Blank
     cases ne with
     | false => simpa using hI
     | true =>
-      simp only [Bool.not_true, Bool.false_eq_true, if_false, if_true, run_bind_pure, run_bind, initNode_run]
+      simp only [Bool.not_true, Bool.false_eq_true, if_false, if_true, run_bind, initNode_run]
       exact appendChild_inv (initNode_inv hI hb .text 0) p t
 
 theorem addCDATA_inv {h : Heap} (hI : Inv h) (p t : Id) (a : Bool) (hb : Blank h t) :
@@ -641,7 +641,7 @@ theorem addCDATA_inv {h : Heap} (hI : Inv h) (p t : Id) (a : Bool) (hb : Blank h
   cases a with
   | false => simpa using hI
   | true =>
-    simp only [Bool.not_true, Bool.false_eq_true, if_false, run_bind_pure, run_bind, initNode_run]
+    simp only [Bool.not_true, Bool.false_eq_true, if_false, run_bind, initNode_run]
     exact appendChild_inv (initNode_inv hI hb .cdata 0) p t
 
 theorem setAttrNS_inv {h : Heap} (hI : Inv h) (e key : Nat) (conv : Except Err Nat) :
@@ -852,5 +852,275 @@ theorem not_child_raises_NotFound_insertBefore {h : Heap} {p n r : Id} (hk : (h 
   rw [insertBefore_run]
   have hro : ¬ RefOk h p (some r) := fun hh => hr (hh r rfl)
   simp [hk, hro]
+
+/-! ### the forest shape: this is where "not into its own descendant" is needed -/
+
+/-- `a` is `x` itself or an ancestor of `x` -/
+inductive AncOrSelf (h : Heap) (a : Id) : Id → Prop
+  | refl : AncOrSelf h a a
+  | step {x p : Id} : (h x).parent = some p → AncOrSelf h a p → AncOrSelf h a x
+
+/-- no cycles through parent links: some depth strictly decreases from child to parent -/
+def Acyclic (h : Heap) : Prop := ∃ d : Id → Nat, ∀ c p, (h c).parent = some p → d p < d c
+
+theorem acyclic_empty : Acyclic Heap.empty := ⟨fun _ => 0, by intro c p hp; simp at hp⟩
+
+/-- removing parent links keeps a forest a forest -/
+theorem acyclic_of_parent_sub {h h' : Heap} (hA : Acyclic h)
+    (hp : ∀ x q, (h' x).parent = some q → (h x).parent = some q) : Acyclic h' := by
+  obtain ⟨d, hd⟩ := hA
+  exact ⟨d, fun c p hcp => hd c p (hp c p hcp)⟩
+
+/-- hanging `n` (wherever it was) under `p` keeps a forest a forest, unless `p` is `n` or lies below `n` -/
+theorem acyclic_attach {h h' : Heap} {p n : Id} (hA : Acyclic h)
+    (hpar : ∀ x, (h' x).parent = if x = n then some p else (h x).parent)
+    (hno : ¬ AncOrSelf h n p) : Acyclic h' := by
+  classical
+  obtain ⟨d, hd⟩ := hA
+  refine ⟨fun x => if AncOrSelf h n x then d x + (d p + 1) else d x, ?_⟩
+  intro c q hcq
+  rw [hpar] at hcq
+  by_cases hc : c = n
+  · subst hc
+    simp only [if_true] at hcq
+    cases hcq
+    simp only [hno, if_false, AncOrSelf.refl, if_true]
+    omega
+  · simp only [hc, if_false] at hcq
+    have hlt := hd c q hcq
+    by_cases hdc : AncOrSelf h n c
+    · have hdq : AncOrSelf h n q := by
+        cases hdc with
+        | refl => exact absurd rfl hc
+        | step hp ha => rw [hcq] at hp; cases hp; exact ha
+      simp only [hdc, hdq, if_true]; omega
+    · have hdq : ¬ AncOrSelf h n q := fun ha => hdc (AncOrSelf.step hcq ha)
+      simp only [hdc, hdq, if_false]; exact hlt
+
+theorem AncOrSelf.congr {h h' : Heap} (hp : ∀ x, (h' x).parent = (h x).parent) {a x : Id}
+    (ha : AncOrSelf h' a x) : AncOrSelf h a x := by
+  induction ha with
+  | refl => exact AncOrSelf.refl
+  | step hpx _ ih => exact AncOrSelf.step (by rw [← hp]; exact hpx) ih
+
+/-- a node without children is nobody's proper ancestor -/
+theorem AncOrSelf.eq_of_no_kids {h : Heap} (hI : Inv h) {a x : Id} (hk : (h a).kids = [])
+    (ha : AncOrSelf h a x) : x = a := by
+  induction ha with
+  | refl => rfl
+  | step hpx _ ih =>
+    subst ih
+    have := (hI.parent_iff _ _).mpr hpx
+    rw [hk] at this; cases this
+
+theorem detach_parent (h : Heap) (c x : Id) :
+    (detach h c x).parent = if x = c then none else (h x).parent := by
+  unfold detach
+  split
+  · rw [rmHeap_parent]
+  · rename_i hq; split
+    · rename_i e; rw [e]; exact hq
+    · rfl
+
+theorem insHeap_parent (h : Heap) (p n r x : Id) :
+    (insHeap h p n r x).parent = if x = n then some p else (h x).parent := by
+  unfold insHeap linkPrevHeap
+  simp only
+  split
+  · simp
+  · split <;> simp
+
+theorem appendChild_acyclic {h : Heap} (hI : Inv h) (hA : Acyclic h) {p c : Id}
+    (hno : ¬ AncOrSelf h c p) : Acyclic ((appendChild p c).run h).1 := by
+  rw [appendChild_run]
+  split
+  · exact hA
+  · simp only [hI.detachOk c, if_true]
+    apply acyclic_attach hA _ hno
+    intro x; rw [app_parent, detach_parent]
+    split <;> rfl
+
+theorem insertBefore_acyclic {h : Heap} (hI : Inv h) (hA : Acyclic h) {p n : Id} (ref : Option Id)
+    (hno : ¬ AncOrSelf h n p) : Acyclic ((insertBefore p n ref).run h).1 := by
+  rw [insertBefore_run]
+  split
+  · exact hA
+  · split
+    · exact hA
+    · split
+      · exact hA
+      · simp only [hI.detachOk n, not_true, if_false]
+        cases ref with
+        | none =>
+          apply acyclic_attach hA _ hno
+          intro x; rw [app_parent, detach_parent]
+          split <;> rfl
+        | some r =>
+          apply acyclic_attach hA _ hno
+          intro x; rw [insHeap_parent, detach_parent]
+          split <;> rfl
+
+theorem removeChild_acyclic {h : Heap} (hA : Acyclic h) (p c : Id) :
+    Acyclic ((removeChild p c).run h).1 := by
+  rw [removeChild_run]
+  split
+  · apply acyclic_of_parent_sub hA
+    intro x q hx; rw [rmHeap_parent] at hx
+    split at hx
+    · cases hx
+    · exact hx
+  · exact hA
+
+theorem acyclic_of_same_parents {h h' : Heap} (hA : Acyclic h) (hp : ∀ x, (h' x).parent = (h x).parent) :
+    Acyclic h' :=
+  acyclic_of_parent_sub hA (fun x q hx => by rw [← hp]; exact hx)
+
+/-- the caller error the property excludes: the node to be inserted is the receiver or one of its
+    ancestors -/
+def NotIntoOwnDescendant (h : Heap) : Op → Prop
+  | .append p c => ¬ AncOrSelf h c p
+  | .insertBefore p n _ => ¬ AncOrSelf h n p
+  | .addElement p c _ => ¬ AncOrSelf h c p
+  | .addText p t _ _ => t ≠ p
+  | .addCDATA p t _ => t ≠ p
+  | _ => True
+
+theorem appendNew_acyclic {h : Heap} (hI : Inv h) (hA : Acyclic h) {p t : Id} (hb : Blank h t) (hne : t ≠ p)
+    (k : Kind) : Acyclic ((appendChild p t).run (h.set t { kind := k, qn := 0 })).1 := by
+  have hI1 := initNode_inv hI hb k 0
+  have hpar : ∀ x, ((h.set t { kind := k, qn := 0 }) x).parent = (h x).parent := by
+    intro x; rw [Heap.set_apply]; split
+    · rename_i e; subst e; exact hb.1.symm
+    · rfl
+  have hA1 : Acyclic (h.set t { kind := k, qn := 0 }) := acyclic_of_same_parents hA hpar
+  apply appendChild_acyclic hI1 hA1
+  intro ha
+  have := AncOrSelf.eq_of_no_kids hI1 (by simp) ha
+  exact hne this.symm
+
+/-- **C08 (the structure stays a forest)**: with the caller error excluded, no operation creates a
+    cycle of parent links. -/
+theorem acyclic_step {h : Heap} (hI : Inv h) (hA : Acyclic h) (op : Op) (hno : NotIntoOwnDescendant h op) :
+    Acyclic ((step op).run h).1 := by
+  cases op with
+  | newNode i k qn =>
+    simp only [step]
+    rw [run_bind, fresh_run]
+    by_cases hb : Blank h i
+    · simp only [hb, if_true, initNode_run]
+      apply acyclic_of_same_parents hA
+      intro x; rw [Heap.set_apply]; split
+      · rename_i e; subst e; exact hb.1.symm
+      · rfl
+    · simpa [hb] using hA
+  | append p c => exact appendChild_acyclic hI hA hno
+  | insertBefore p n ref => exact insertBefore_acyclic hI hA ref hno
+  | remove p c => exact removeChild_acyclic hA p c
+  | addElement p c a =>
+    simp only [step]; unfold addElement
+    cases a with
+    | false => simpa using hA
+    | true => simpa using appendChild_acyclic hI hA hno
+  | addText p t a ne =>
+    simp only [step]
+    rw [run_bind, fresh_run]
+    by_cases hb : Blank h t
+    · simp only [hb, if_true]
+      unfold addText
+      cases a with
+      | false => simpa using hA
+      | true =>
+        cases ne with
+        | false => simpa using hA
+        | true =>
+          simp only [Bool.not_true, Bool.false_eq_true, if_false, if_true, run_bind, initNode_run]
+          exact appendNew_acyclic hI hA hb hno .text
+    · simpa [hb] using hA
+  | addCDATA p t a =>
+    simp only [step]
+    rw [run_bind, fresh_run]
+    by_cases hb : Blank h t
+    · simp only [hb, if_true]
+      unfold addCDATA
+      cases a with
+      | false => simpa using hA
+      | true =>
+        simp only [Bool.not_true, Bool.false_eq_true, if_false, run_bind, initNode_run]
+        exact appendNew_acyclic hI hA hb hno .cdata
+    · simpa [hb] using hA
+  | setAttribute e k t a key conv =>
+    simp only [step]; unfold setAttribute setAttrNS
+    cases k <;> cases t <;> cases a <;> cases conv <;> simp
+    all_goals first | exact hA | exact acyclic_of_same_parents hA (fun x => by simp)
+  | setAttrNS e key conv =>
+    simp only [step]; unfold setAttrNS
+    cases conv <;> simp
+    · exact hA
+    · exact acyclic_of_same_parents hA (fun x => by simp)
+  | removeAttribute e k t a key =>
+    simp only [step]; unfold removeAttribute
+    cases k <;> cases t <;> cases a <;> simp
+    all_goals first
+      | exact hA
+      | (split
+         · exact hA
+         · exact acyclic_of_same_parents hA (fun x => by simp))
+
+/-- a history none of whose steps makes the excluded caller error -/
+def GoodHistory : Heap → List Op → Prop
+  | _, [] => True
+  | h, op :: r => NotIntoOwnDescendant h op ∧ GoodHistory ((step op).run h).1 r
+
+theorem tree_runOps (ops : List Op) : ∀ h, Inv h → Acyclic h → GoodHistory h ops →
+    Inv (runOps h ops) ∧ Acyclic (runOps h ops) := by
+  induction ops with
+  | nil => intro h hI hA _; exact ⟨hI, hA⟩
+  | cons op r ih =>
+    intro h hI hA hg
+    exact ih _ (inv_step hI op) (acyclic_step hI hA op hg.1) hg.2
+
+/-- **C08 (tree, any history)**: consistent AND cycle-free after every edit history that never
+    inserts a node into itself or its own descendant. -/
+theorem tree_reachable (ops : List Op) (hg : GoodHistory Heap.empty ops) :
+    Inv (runOps Heap.empty ops) ∧ Acyclic (runOps Heap.empty ops) :=
+  tree_runOps ops _ inv_empty acyclic_empty hg
+
+/-! ### non-vacuity: a concrete history -/
+
+/-- elements 0 1 2, text node 3; 1, 3, 2 appended under 0; then 2 moved before 1, 3 moved under 1,
+    and a removal of a non-child refused -/
+def demoOps : List Op :=
+  [.newNode 0 .elem 0, .newNode 1 .elem 0, .newNode 2 .elem 0, .newNode 3 .text 0,
+   .append 0 1, .append 0 3, .append 0 2, .insertBefore 0 2 (some 1), .append 1 3, .remove 0 3]
+
+example : ((runOps Heap.empty demoOps) 0).kids = [2, 1] := by decide
+example : ((runOps Heap.empty demoOps) 1).kids = [3] := by decide
+example : ((runOps Heap.empty demoOps) 1).prev = some 2 ∧ ((runOps Heap.empty demoOps) 1).next = none := by decide
+example : Inv (runOps Heap.empty demoOps) := inv_reachable demoOps
+
+/-- the excluded caller error really is what breaks the forest shape (and only that: the local
+    consistency `Inv` survives): after `0.appendChild(1); 1.appendChild(0)` the two nodes are each
+    other's parent -/
+theorem own_descendant_breaks_forest :
+    let h := runOps Heap.empty [.newNode 0 .elem 0, .newNode 1 .elem 0, .append 0 1, .append 1 0]
+    Inv h ∧ ¬ Acyclic h := by
+  intro h
+  refine ⟨inv_reachable _, ?_⟩
+  intro ⟨d, hd⟩
+  have h1 : (h 0).parent = some 1 := by decide
+  have h2 : (h 1).parent = some 0 := by decide
+  have a := hd 0 1 h1
+  have b := hd 1 0 h2
+  omega
+
+/-- the hypothesis of `tree_reachable` is satisfiable -/
+example : GoodHistory Heap.empty [.newNode 0 .elem 0, .newNode 1 .elem 0, .append 0 1] := by
+  refine ⟨trivial, trivial, ?_, trivial⟩
+  intro ha
+  cases ha with
+  | step hp _ =>
+    have hnone : (((step (Op.newNode 1 .elem 0)).run ((step (Op.newNode 0 .elem 0)).run Heap.empty).1).1 0).parent
+        = none := by decide
+    rw [hnone] at hp; cases hp
 
 end OdfModel.Props.C08
